@@ -359,8 +359,11 @@ def padSectorsFor (volumeSize : Nat) : Nat :=
   Gen.fs_basePadSectors +
     (if volumeSize % Gen.fs_basePadSectors > 0 then Gen.fs_basePadSectors - volumeSize % Gen.fs_basePadSectors else 0)
 
+/-- the largest sector number the server can represent (sizeSectors is int32) -/
+def maxSector : Nat := 2 ^ 31 - 1
+
 /-- buildFSStructures up to calculateSizes: scan and LBA arithmetic -/
-def layoutOf (w : World) (root : Path) (ps3 : Bool) : Option Layout :=
+def layoutRaw (w : World) (root : Path) (ps3 : Bool) : Option Layout :=
   match w.stat root with
   | some (_, .dir _) =>
     match gameCodeOf w root ps3 with
@@ -383,6 +386,25 @@ def layoutOf (w : World) (root : Path) (ps3 : Bool) : Option Layout :=
                filesLBA := filesLBA, volumeSize := volumeSize, padSectors := padSectors,
                volSectors := volumeSize + padSectors }
   | _ => none
+
+/-- sector numbers are int32: a tree that does not fit (with the largest possible padding) is refused -/
+def layoutOf (w : World) (root : Path) (ps3 : Bool) : Option Layout :=
+  match layoutRaw w root ps3 with
+  | none => none
+  | some L => if L.volumeSize + 2 * Gen.fs_basePadSectors > maxSector then none else some L
+
+theorem layoutOf_some {w : World} {root : Path} {ps3 : Bool} {L : Layout} (h : layoutOf w root ps3 = some L) :
+    layoutRaw w root ps3 = some L ∧ L.volumeSize + 2 * Gen.fs_basePadSectors ≤ maxSector := by
+  unfold layoutOf at h
+  cases hr : layoutRaw w root ps3 with
+  | none => simp [hr] at h
+  | some L' =>
+    simp only [hr] at h
+    by_cases hc : L'.volumeSize + 2 * Gen.fs_basePadSectors > maxSector
+    · simp [hc] at h
+    · simp only [hc, if_false, Option.some.injEq] at h
+      subst h
+      exact ⟨rfl, Nat.le_of_not_lt hc⟩
 
 def Layout.recsOf (L : Layout) (joliet : Bool) (dirLBA : Nat) : List (List DirRec) :=
   (List.range L.items.length).filterMap (fun k =>
